@@ -208,8 +208,14 @@ example : (run Skeleton.current (init [some { req := some 1, res := some 2 }, no
 example : run Skeleton.current (init [some { req := some 1, res := none }, none]) [.decRead, .readDoneReq] = none := by
   decide
 
+/-- The hand-off between the decoder and the two read loops is a rendezvous (unbuffered channels):
+    the model's joint hand-off step is what the source does, so a frame is consumed by its loop
+    before the decoder can reach a later decode error (checked against the regenerated skeleton). -/
+theorem C08_handoff_is_rendezvous : Skeleton.current.stHandoffChanCap = 0 := by decide
+
 end Panrpc.St
 
+#print axioms Panrpc.St.C08_handoff_is_rendezvous
 #print axioms Panrpc.St.C08_stream_demux_order
 #print axioms Panrpc.St.C08_stream_no_loss
 #print axioms Panrpc.St.C08_stream_no_panic
